@@ -49,9 +49,13 @@ def parseOps (s : List Char) : List (Bool × Nat × Bool) :=
 def showSlots (p : Prog) : String :=
   ";".intercalate (p.map fun ((q, c), (pr, sh, tr)) => s!"{q},{c}={pr},{if sh then 1 else 0},{tr}")
 
+def showErr : PErr → String
+  | .panic _ => "PANIC"
+  | .overflow _ => "limit:overflow"
+
 def withProg (text : String) (f : Prog → String) : String :=
   match Prog.fromStr text with
-  | .error _ => "PANIC"
+  | .error e => showErr e
   | .ok p => f p
 
 def handle (op : String) (args : List String) (text : String) : String :=
@@ -67,37 +71,46 @@ def handle (op : String) (args : List String) (text : String) : String :=
         let (t', k) := acc.1.step o.1 o.2.1 o.2.2
         (t', s!"{k}:{showObs t'}" :: acc.2)) (Tape.init, [])
       " # ".intercalate outs.reverse
+  | "tapeopsh", [ops] =>
+      let (t, h, n) := (parseOps ops.toList).foldl (fun (acc : Tape × UInt64 × Nat) o =>
+        let (t', k) := acc.1.step o.1 o.2.1 o.2.2
+        let str := s!"{k}:{t'.show}|"
+        let h' := str.toUTF8.foldl (fun (h : UInt64) b => (h ^^^ b.toUInt64) * 0x100000001b3) acc.2.1
+        (t', h', acc.2.2 + 1)) (Tape.init, (0xcbf29ce484222325 : UInt64), 0)
+      let hex := String.ofList (Nat.toDigits 16 h.toNat)
+      let hex := String.ofList (List.replicate (16 - hex.length) '0') ++ hex
+      s!"{n} {hex} {showObs t}"
   | "l0run", [budget] => withProg text fun p => (Oracle.run p budget.toNat!).show
   | "l0cfgs", [ns] => withProg text fun p =>
       "/".intercalate (Oracle.cfgsAt p ((ns.splitOn ",").map String.toNat!))
   | "slots", [] => withProg text showSlots
   | "rt2", [a, b] => withProg text fun p =>
       match p.showChars (some (a.toNat!, b.toNat!)) with
-      | .error _ => "PANIC"
+      | .error e => showErr e
       | .ok cs => match Prog.fromChars cs with
-        | .error _ => "PANIC"
+        | .error e => showErr e
         | .ok p2 => showSlots p2
   | "tok", ["instr"] =>
       match readInstr text.toList with
-      | .error _ => "PANIC"
+      | .error e => showErr e
       | .ok i => match showInstr i with
-        | .error _ => "PANIC"
+        | .error e => showErr e
         | .ok shown => match i with
           | none => s!"none -> {String.ofList shown}"
           | some (c, sh, st) => s!"{c},{if sh then 1 else 0},{st} -> {String.ofList shown}"
   | "tok", ["slot"] =>
       match readSlot text.toList with
-      | .error _ => "PANIC"
+      | .error e => showErr e
       | .ok (q, c) => match showSlot (q, c) with
-        | .error _ => "PANIC"
+        | .error e => showErr e
         | .ok shown => s!"{q},{c} -> {String.ofList shown}"
   | "tok", ["state"] =>
       match text.toList with
       | [] => "PANIC"
       | ch :: _ => match readState ch with
-        | .error _ => "PANIC"
+        | .error e => showErr e
         | .ok q => match showState q with
-          | .error _ => "PANIC"
+          | .error e => showErr e
           | .ok c => s!"{q} -> {String.singleton c}"
   | _, _ =>
     match OpsReason.handle op args text with
